@@ -254,6 +254,12 @@ def check_random(p, ctx):
                 return
             ctx.skip(f"generate_mesh crashed ({cr.kind}): reported under C11")
             return
+        pairs = [frozenset((ed.v1.id, ed.v2.id)) for ed in e.values()]
+        if len(set(pairs)) != len(pairs) or any(len(cell.vertices) < 3 for cell in c.values()):
+            # contraction collapsed a triangle into a 2-gon / produced parallel mesh edges: known finding D22
+            ctx.exclude_known("D22")
+            ctx.count("excluded:D22-degenerate-cell-after-contraction")
+            return
         ctx.count("after-resampling")
     res = check_frame(ctx, p, v, e, c, label)
     if res is None:
